@@ -1,8 +1,12 @@
 PROPS["C18"] = dict(
     families=["chg"],
     label="full for the change chunk container (every field, any number of dependencies / actors / columns, the column "
-          "metadata checks, signed LEB128 time, UTF-8 message, raw and compressed framing); partial: the op columns inside "
-          "the column data are opaque bytes; spec-level for bundles (the bundle body is a parameter)",
+          "metadata checks, signed LEB128 time, UTF-8 message, raw and compressed framing); partial for the op columns: they are "
+          "modelled line by line (legacy RLE / delta / boolean / raw codecs, ChangeOpsColumns::encode, try_from(Columns), "
+          "ChangeOpsIter, verify_ops) and every change is decoded and re-encoded through the model, the value readers and the "
+          "boolean decoder are proved, the RLE decoder is proved to panic on two inputs (refuted, reproduced), the general "
+          "decode-after-encode theorem for op lists is stated but proved on instances only; spec-level for bundles (the bundle "
+          "body is a parameter)",
     level_text="Theorems over a line-by-line model of Change::parse_following_header / ChangeBuilder::build (storage/change.rs), "
                "the parse.rs combinators, leb128_u64 / leb128_i64, RawColumns::parse (saturating offsets, normal order, deflate "
                "bit), the column layout state machine Columns::parse2 and ChangeOpsColumns::try_from: the reader inverts the "
@@ -11,23 +15,53 @@ PROPS["C18"] = dict(
                "(C18_change_canonical, C18_hash_stable_under_reencode); no input makes the reader panic, in particular the "
                "overflow-checked total_column_len cannot overflow (C18_parse_no_panic); composed with the chunk framing of "
                "Store/Chunk.v for raw (type 1) and compressed (type 2, DEFLATE a parameter) chunks; signed LEB128 round trip "
-               "and canonicity on every i64. NOT proved: the op columns inside the column data (verify_ops, decode, the legacy "
-               "re-encoder) and the bundle body codec; C18_bundle_load_spec only says that loading a bundle chunk is applying "
-               "whatever changes its body stands for. Tied to the code by comparing, for every change of generated histories and "
+               "and canonicity on every i64. The op columns: Codec/ColEnc.v mirrors columnar/encoding/{rle,delta,boolean,raw}.rs and the "
+               "`leb128` crate readers behind decodable_impls.rs as state machines (no run is ever expanded), Store/ChangeOps.v "
+               "mirrors ChangeOp, ChangeOpsColumns::encode + raw_columns + RawColumns::from_iter (empty columns omitted), the "
+               "column layout parser with its byte ranges, ChangeOpsColumns::try_from(Columns), ObjIdIter / KeyIter / ValueIter / "
+               "OpIdListIter / ChangeOpsIter, validate_action_and_value, OpId::new and verify_ops (parse_change_full). Proved: the "
+               "u64 / i64 / string readers invert the writers and never panic (C18_col_*), the boolean decoders never panic, the "
+               "lazily bounded loop is bounded iteration; REFUTED by witness: the RLE decoder panics on a literal-run header of "
+               "i64::MIN and on a null run of 2^63 items, and reading the ops of a change whose container parses can panic "
+               "(also through OpId::new above u32::MAX) -- all reproduced through Change::from_bytes (known findings). NOT proved: "
+               "decode_ops (encode_ops ops) = Ok ops for all well-formed op lists (ops_roundtrip_statement; the RLE / delta / "
+               "boolean encoder invariants are missing): C18_ops_roundtrip_partial / C18_ops_long_runs_roundtrip_partial prove it "
+               "on a 15-op list with every value type, marks, increments, deletes, head / element inserts, predecessors of three "
+               "actors, all fourteen columns, and on 330 ops with runs across 64 / 128 items. NOT modelled: the hexane-based writer "
+               "op_set2/change.rs write_change_ops that commits and get_changes use (tied to the modelled legacy writer by "
+               "re-encoding every decoded change through the model and on the implementation), legacy::OpType::from_parts beyond "
+               "its table (checker side), and the bundle body codec; C18_bundle_load_spec only says that loading a bundle chunk is "
+               "applying whatever changes its body stands for. Tied to the code by comparing, for every change of generated histories and "
                "for hand-built ExpandedChanges (unicode messages, extra bytes, 0..130 dependencies, other actors, extreme times, "
                "empty ops), the model's parse of the chunk data with the implementation's fields and its re-encoding with the "
                "bytes; by evaluating the property directly (from_bytes(raw_bytes) / from_bytes(bytes()) same change and hash, "
                "decode -> Change::from same hash and bytes, bundles of random subsets incl. missing dependencies: byte-identical "
-               "changes, load == apply_changes); and by mutating the header region of change chunks (checksum recomputed) and "
-               "comparing accept / reject and the accepted fields with the model.",
+               "changes, load == apply_changes); by mutating the header region of change chunks (checksum recomputed) and "
+               "comparing accept / reject and the accepted fields with the model; for the op columns (chk_chg_ops): the model's "
+               "parse_change_full of the chunk data must give exactly the operations Change::decode() reports (actor ids through "
+               "the change's actor table, predecessors in stored order), they must be well-formed, and encode_ops of them must be "
+               "the chunk's column list byte for byte; and by mutating bytes INSIDE the op-column region (bit flips, special bytes, "
+               "crafted columns: null runs of 2^63, i64::MIN headers, counters around u32::MAX, over-long LEBs, bad UTF-8, "
+               "over-large strings, zero-length runs; truncated / extended / dropped / duplicated / swapped columns, changed "
+               "specifications, shifted column boundaries; column metadata rewritten to match) and comparing accept / reject / "
+               "panic of Change::from_bytes and the decoded operations (or the panic of decode()) with the model (chk_chg_ops_mut).",
     rule="changes of 60 (thorough: 400) generated multi-replica histories + 90 (600) hand-built ExpandedChanges, each checked "
          "directly; those of the first 12 (60) histories and all hand-built ones also through the model; 5 (8) bundles per "
          "history (all / causal prefix / suffix with missing deps / random subset / single change), each loaded into an empty "
          "document and one holding a prefix; 420 (3000) mutants of change chunk data (bit flips, byte insert / delete, field-aware "
-         "edits of every header field and of the column metadata, synthetic time encodings). Non-trivial: a change with "
+         "edits of every header field and of the column metadata, synthetic time encodings); 64 (400) hand-built ExpandedChanges "
+         "that stress the op columns (0 / 1 / 2..25 / 65..75 / 130..170 ops, every value type incl. unknown type codes, marks, "
+         "increments, deletes, head / element keys, 0..5 predecessors of up to 5 actors, unicode / empty keys, repeated ops) and "
+         "260 (2500) mutants of the op-column region. Non-trivial: a change with "
          "dependencies or ops, a bundle of >= 2 changes, a mutant that is not rejected outright; distinct by bytes.",
-    assumptions=["the op columns inside the column data of a change are opaque bytes in the model; their codec is checked "
-                 "differentially (decode -> re-encode on the implementation), not proved",
+    assumptions=["the op columns are modelled and every generated change goes through the model, but decode_ops (encode_ops ops) "
+                 "= Ok ops is proved on instances only (C18_ops_roundtrip_partial), not for all op lists",
+                 "the model mirrors a build WITH overflow checks (the harness profile): the two RLE decoder panics are debug-build "
+                 "panics (a release build wraps); the OpId::new panic is in every build",
+                 "run counts are never expanded: a column declaring 2^60 values costs the model nothing; the implementation's time "
+                 "and memory on such inputs belong to C17, not to this property",
+                 "the hexane-based change writer (op_set2/change.rs) is not modelled; it is compared with the modelled legacy "
+                 "writer on every generated change",
                  "DEFLATE (inflate) and the bundle body codec are parameters of the theorems",
                  "SHA-256 is a parameter (theorems hold for any hash function with >= 4 output bytes)",
                  "UTF-8 validity is modelled after Unicode Table 3-7 (what String::from_utf8 accepts)",
